@@ -168,6 +168,43 @@ def R_TNsimp(seed):
     return qtn.TensorNetwork(ts)
 
 
+def _ints(r, shape):
+    return (r.integers(1, 4, size=shape) * r.choice([-1, 1], size=shape)).astype(complex)
+
+
+def R_TNstruct(seed):
+    """integer network whose structured rank-2 tensors (exactly diagonal / anti-diagonal / single non-zero column)
+    each carry one *output* label, stored once as (output, bond) and once as (bond, output), next to fully inner ones"""
+    import quimb.tensor as qtn
+    r = _rng(seed, 21)
+    ts = [qtn.Tensor(_ints(r, (2, 2, 2, 2, 2, 2)), inds=("k0", "x0", "x1", "x2", "x6", "y"), tags=("A",)),
+          qtn.Tensor(_ints(r, (2, 2, 2, 2, 2, 2, 2)), inds=("y", "x3", "x4", "x5", "x7", "z0", "k1"), tags=("B",)),
+          qtn.Tensor(np.diag(_ints(r, (2,))), inds=("o0", "x0"), tags=("D1",)),
+          qtn.Tensor(np.diag(_ints(r, (2,))), inds=("x3", "o3"), tags=("D2",)),
+          qtn.Tensor(np.fliplr(np.diag(_ints(r, (2,)))), inds=("o1", "x1"), tags=("AN1",)),
+          qtn.Tensor(np.fliplr(np.diag(_ints(r, (2,)))), inds=("x4", "o4"), tags=("AN2",))]
+    c1 = np.zeros((2, 2), dtype=complex)
+    c1[:, 1] = _ints(r, (2,))                      # only bond value 1 survives
+    ts.append(qtn.Tensor(c1, inds=("o2", "x2"), tags=("C1",)))
+    c2 = np.zeros((2, 2), dtype=complex)
+    c2[0, :] = _ints(r, (2,))                      # only bond value 0 survives
+    ts.append(qtn.Tensor(c2, inds=("x5", "o5"), tags=("C2",)))
+    # single non-zero slice along the *output* label (must be left alone)
+    c3 = np.zeros((2, 2), dtype=complex)
+    c3[0, :] = _ints(r, (2,))
+    ts.append(qtn.Tensor(c3, inds=("o6", "x6"), tags=("C3",)))
+    c4 = np.zeros((2, 2), dtype=complex)
+    c4[:, 1] = _ints(r, (2,))
+    ts.append(qtn.Tensor(c4, inds=("x7", "o7"), tags=("C4",)))
+    # fully inner structured tensors between B and E
+    ts.append(qtn.Tensor(np.fliplr(np.diag(_ints(r, (2,)))), inds=("z0", "z1"), tags=("AN3",)))
+    ts.append(qtn.Tensor(_ints(r, (2, 2)), inds=("z1", "k2"), tags=("E",)))
+    return qtn.TensorNetwork(ts)
+
+
+STRUCT_OUT = ("k0", "k1", "k2", "o0", "o1", "o2", "o3", "o4", "o5", "o6", "o7")
+
+
 def R_TNleft(seed):
     import quimb.tensor as qtn
     tn = R_TNline(seed)
@@ -425,16 +462,26 @@ def _tn_table():
     T[k("expand_bond_dimension")] = [Case("TN", A(4)), Case("TN", A(4, rand_strength=0.1), rnd=True),
                                      Case("TN", A(3, inds_to_expand=("b0", "b2"))), Case("MPS", A(6))]
     T[k("flip")] = [Case("TN", A(("k0", "b1"))), Case("TNline", A(("k2",)))]
-    T[k("rank_simplify")] = [Case("TNsimp", gauge=True), Case("TN", A(output_inds=("k0", "k1", "k2", "k3")), gauge=True)]
+    T[k("rank_simplify")] = [Case("TNstruct", A(output_inds=STRUCT_OUT), gauge=True, label="TNstruct"), Case("TNsimp", gauge=True), Case("TN", A(output_inds=("k0", "k1", "k2", "k3")), gauge=True)]
     T[k("diagonal_reduce")] = [Case("TNsimp", gauge=True)]
     T[k("antidiag_gauge")] = [Case("TNsimp", gauge=True)]
     T[k("column_reduce")] = [Case("TNsimp", gauge=True)]
+    for nm in ("diagonal_reduce", "antidiag_gauge", "column_reduce"):
+        T[k(nm)] += [Case("TNstruct", gauge=True, label="TNstruct outer"),
+                     Case("TNstruct", A(output_inds=STRUCT_OUT), gauge=True, label="TNstruct output_inds")]
     T[k("split_simplify")] = [Case("TNsimp", gauge=True)]
     T[k("pair_simplify")] = [Case("TNsimp", gauge=True), Case("TN", gauge=True)]
     T[k("loop_simplify")] = [Case("TNsimp", gauge=True)]
-    T[k("full_simplify")] = [Case("TNsimp", A("ADCRSL"), gauge=True), Case("TNsimp", gauge=True)]
+    T[k("full_simplify")] = [Case("TNsimp", A("ADCRSL"), gauge=True), Case("TNsimp", gauge=True),
+                             Case("TNstruct", A("A", output_inds=STRUCT_OUT), gauge=True, label="TNstruct A"),
+                             Case("TNstruct", A("D", output_inds=STRUCT_OUT), gauge=True, label="TNstruct D"),
+                             Case("TNstruct", A("C", output_inds=STRUCT_OUT), gauge=True, label="TNstruct C"),
+                             Case("TNstruct", A("ADC", output_inds=STRUCT_OUT), gauge=True, label="TNstruct ADC"),
+                             Case("TNstruct", A("ADCR"), gauge=True, label="TNstruct ADCR outer")]
     T[k("hyperinds_resolve")] = [Case("TNhyper"), Case("TNhyper", A("tree"))]
-    T[k("compress_simplify")] = [Case("TNsimp", gauge=True)]
+    T[k("compress_simplify")] = [Case("TNsimp", gauge=True),
+                                 Case("TNstruct", A(output_inds=STRUCT_OUT, simplify_sequence_a="ADC", simplify_sequence_b="A"), gauge=True,
+                                      label="TNstruct")]
     T[k("gate_inds")] = [Case("TN", lambda x, h: ((h.G(2), ("k1",)), {})),
                          Case("TN", lambda x, h: ((h.G(4), ("k2", "k0")), {"contract": True})),
                          Case("TN", lambda x, h: ((h.G(4), ("k0", "k1")), {"contract": "split", "cutoff": 0.0}), gauge=True)]
@@ -571,6 +618,81 @@ def R_TNVV(seed):
 for _k in ("MPSMPS", "PEPSPEPS", "PEPS3DPEPS3D", "TNVV"):
     RECEIVERS[_k] = globals()["R_" + _k]
 
+
+def _noop_table():
+    """arguments for which there is nothing to do: the plain spelling must still hand out a new object"""
+    import quimb.tensor as qtn
+    N = {}
+    t = lambda n: ("Tensor", n)  # noqa
+    k = lambda n: ("TensorNetwork", n)  # noqa
+    no = lambda recv, args=None, **kw: Case(recv, args, label="noop " + recv + kw.pop("tag", ""), **kw)  # noqa
+    N[t("astype")] = [no("T", A("complex128")), no("Treal", A("float64"))]
+    N[t("collapse_repeated")] = [no("T")]
+    N[t("conj")] = [no("Treal")]
+    N[t("isel")] = [no("T", A({}))]
+    N[t("moveindex")] = [no("T", A("a", 0)), no("T", A("d", -1), tag=" last"), no("T", A("c", 2), tag=" middle")]
+    N[t("reindex")] = [no("T", A({})), no("T", A({"q": "r"}), tag=" absent"), no("T", A({"a": "a"}), tag=" same")]
+    N[t("retag")] = [no("T", A({})), no("T", A({"X": "Y"}), tag=" absent")]
+    N[t("squeeze")] = [no("T", A(exclude=("a",)), tag=" nothing of size 1")]
+    N[t("to")] = [no("T"), no("T", A(dtype="complex128"), tag=" same dtype")]
+    N[t("transpose")] = [no("T", A("a", "b", "c", "d")), no("Tleft", A("a", "b", "c"))]
+    N[t("transpose_like")] = [no("T", lambda x, h: ((R_T(h.seed + 50),), {}))]
+    N[t("flip")] = [no("Tsq", A("s"), tag=" size-1 label")]
+    N[t("multiply_index_diagonal")] = [no("T", lambda x, h: (("b", np.ones(3)), {}), tag=" ones")]
+    N[t("sum_reduce")] = [no("Tsq", A("s"), tag=" size-1 label")]
+    N[k("astype")] = [no("TN", A("complex128"))]
+    N[k("to")] = [no("TN")]
+    N[k("reindex")] = [no("TN", A({})), no("TN", A({"q": "r"}), tag=" absent"), no("MPS", A({}))]
+    N[k("retag")] = [no("TN", A({}))]
+    N[k("multiply")] = [no("TN", A(1.0))]
+    N[k("multiply_each")] = [no("TN", A(1.0))]
+    N[k("isel")] = [no("TN", A({}))]
+    N[k("flip")] = [no("TN", A(()))]
+    N[k("squeeze")] = [no("TN")]
+    N[k("fuse_multibonds")] = [no("TNline")]
+    N[k("expand_bond_dimension")] = [no("TN", A(2)), no("TN", A(1), tag=" smaller")]
+    N[k("rank_simplify")] = [no("TN", A(output_inds=("k0", "k1", "k2", "k3")), gauge=True)]
+    N[k("diagonal_reduce")] = [no("TN")]
+    N[k("antidiag_gauge")] = [no("TN")]
+    N[k("column_reduce")] = [no("TN")]
+    N[k("split_simplify")] = [no("TN", gauge=True)]
+    N[k("loop_simplify")] = [no("TNline", gauge=True)]
+    N[k("full_simplify")] = [no("TN", A("ADC"), gauge=True), no("TN", A(""), tag=" empty sequence")]
+    N[k("hyperinds_resolve")] = [no("TN")]
+    N[k("contract_tags")] = [no("TN", A("I0"), tag=" single tensor")]
+    N[k("contract")] = [no("TN", A("I0"), tag=" single tensor")]
+    N[k("view_as")] = [no("TN", lambda x, h: ((qtn.TensorNetwork,), {})), no("MPS", lambda x, h: ((qtn.MatrixProductState,), {}))]
+    N[k("view_like")] = [no("MPS", lambda x, h: ((R_MPS(h.seed + 50),), {}))]
+    N[k("equalize_norms")] = [no("TN", A(None))]
+    N[k("gauge_all_canonize")] = [no("TN", A(max_iterations=0), gauge=True)]
+    N[k("gauge_all_simple")] = [no("TN", A(max_iterations=0), gauge=True)]
+    N[k("gauge_all_random")] = [no("TN", A(max_iterations=0, seed=1), rnd=True)]
+    N[k("compress_all")] = [no("TNfit", A(cutoff=0.0), gauge=True)]
+    N[k("isometrize")] = [no("TN", A(allow_no_left_inds=True))]
+    N[k("conj")] = [no("TN", A(mangle_inner=False, phase_dual=False))]
+    N[("TensorNetworkGen", "retag_all")] = [no("TNG", A("I{}"))]
+    N[("TensorNetworkGen", "flatten")] = [no("TNV")]
+    N[("TensorNetworkGenVector", "reindex_sites")] = [no("TNV", A("k{}")), no("TNV", A("q{}", where=()), tag=" nowhere")]
+    N[("TensorNetworkGenVector", "reindex_all")] = [no("TNV", A("k{}"))]
+    N[("TensorNetworkGenOperator", "reindex_upper_sites")] = [no("TNO", A("k{}"))]
+    N[("TensorNetworkGenOperator", "reindex_lower_sites")] = [no("TNO", A("b{}"))]
+    N[("TensorNetworkGenOperator", "partial_transpose")] = [no("TNO", A(()))]
+    N[("TensorNetwork1D", "flatten")] = [no("MPS")]
+    N[("TensorNetwork1DVector", "reindex_sites")] = [no("MPS", A("k{}"))]
+    N[("TensorNetwork1DOperator", "reindex_lower_sites")] = [no("MPO", A("b{}"))]
+    N[("TensorNetwork1DOperator", "reindex_upper_sites")] = [no("MPO", A("k{}"))]
+    N[("TensorNetwork1DFlat", "swap_site_to")] = [no("MPS", A(2, 2), gauge=True)]
+    N[("TensorNetwork1DFlat", "left_canonicalize")] = [no("MPS", A(stop=0))]
+    N[("TensorNetwork1DFlat", "right_canonicalize")] = [no("MPS", A(stop=4))]
+    N[("MatrixProductOperator", "fill_empty_sites")] = [no("MPO")]
+    N[("TensorNetwork2D", "flatten")] = [no("PEPS")]
+    N[("TensorNetwork2DVector", "reindex_sites")] = [no("PEPS", A("k{},{}"))]
+    N[("TensorNetwork2DOperator", "reindex_lower_sites")] = [no("PEPO", A("b{},{}"))]
+    N[("TensorNetwork2DOperator", "reindex_upper_sites")] = [no("PEPO", A("k{},{}"))]
+    N[("TensorNetwork3D", "flatten")] = [no("PEPS3D")]
+    return N
+
+
 _TABLE = None
 
 
@@ -580,6 +702,8 @@ def table():
         _TABLE = {}
         for f in (_tensor_table, _tn_table, _ag_table, _1d_table, _2d3d_table):
             _TABLE.update(f())
+        for key, cases in _noop_table().items():
+            _TABLE[key] = list(_TABLE.get(key, [])) + cases
     return _TABLE
 
 
